@@ -293,7 +293,7 @@ BATTERY = [
     ("ignore-region-closed-before", "-- stylua: ignore start\nlocal   v   =   1\n-- stylua: ignore end\n\n" + R("b") + R("a"), ["--sort-requires"],
      "-- stylua: ignore start\nlocal   v   =   1\n-- stylua: ignore end\n\n" + R("a") + R("b")),
     ("wrapped-require", 'local c = require(\n\t"c"\n)\n' + R("b") + R("a"), ["--sort-requires"], R("a") + R("b") + R("c")),
-    ("out-of-range-group", R("b") + R("a") + "local v   =   1\n", ["--sort-requires", "--range-start", "50"], R("b") + R("a") + "local v = 1\n"),
+    ("out-of-range-group", R("b") + R("a") + "local v   =   1\n", ["--sort-requires", "--range-start", "46"], R("b") + R("a") + "local v = 1\n"),
     ("partly-in-range-group", R("b") + R("a") + "local v   =   1\n", ["--sort-requires", "--range-start", "30"], R("b") + R("a") + "local v = 1\n"),
     ("off", R("b") + R("a"), [], R("b") + R("a")),
     ("blank-line-with-spaces", R("b") + R("a") + "  \t\n" + R("d") + R("c"), ["--sort-requires"], R("a") + R("b") + "\n" + R("c") + R("d")),
